@@ -316,36 +316,8 @@ func verifC07Once(suites map[string]*conformancev1.TestSuite, cases []configCase
 	for _, tc := range all {
 		distinct[tc.Request.TestName] = struct{}{}
 	}
-	// output order of allPermutations = the model's `order ++ client copies ++ server copies ++ both`:
-	// the library's own permutations first (each once, in whatever order the map gave), then the three
-	// filtered copies of THAT order (filterGRPCImplTestCases itself is compared in order by c07.filter)
-	if len(all) < len(lib.testCases) {
-		return vErr("all-permutations-structure")
-	}
-	own := all[:len(lib.testCases)]
-	seenOwn := map[*conformancev1.TestCase]bool{}
-	for _, tc := range own {
-		if lib.testCases[tc.Request.TestName] != tc || seenOwn[tc] {
-			return vErr("all-permutations-structure")
-		}
-		seenOwn[tc] = true
-	}
-	var rest []string
-	for _, flags := range [][2]bool{{true, false}, {false, true}, {true, true}} {
-		for _, tc := range lib.filterGRPCImplTestCases(own, flags[0], flags[1]) {
-			rest = append(rest, tc.Request.TestName)
-		}
-	}
-	if len(rest) != len(all)-len(own) {
-		return vErr("all-permutations-structure")
-	}
-	for i, name := range rest {
-		if all[len(own)+i].Request.TestName != name {
-			return vErr("all-permutations-structure")
-		}
-	}
-	// each group lists its members in one visiting order of the map; as a set it is fixed (checked above:
-	// every permutation sits in exactly one group, the one of its own server instance - compared per permutation)
+	// (the ORDER of allPermutations and of the members of a group follows the map iteration order and is
+	// not compared: all_permutations_stable / groups_stable say only the multiset is fixed)
 	return vL(vS("ok"), vL(perms...), vInt(len(lib.casesByServer)),
 		verifC07SortedNames(all),
 		vInt(len(lib.allPermutations(false, false))),
